@@ -15,6 +15,7 @@
 package ggql
 
 import (
+	"math"
 	"strconv"
 )
 
@@ -42,6 +43,9 @@ func (*intScalar) CoerceIn(v interface{}) (interface{}, error) {
 		// remains nil
 	case int:
 		v = int32(tv)
+		if int(int32(tv)) != tv {
+			err = newCoerceErr(tv, "Int")
+		}
 	case int8:
 		v = int32(tv)
 	case int16:
@@ -50,16 +54,28 @@ func (*intScalar) CoerceIn(v interface{}) (interface{}, error) {
 		// ok as is
 	case int64:
 		v = int32(tv)
+		if int64(int32(tv)) != tv {
+			err = newCoerceErr(tv, "Int")
+		}
 	case uint:
 		v = int32(tv)
+		if math.MaxInt32 < tv {
+			err = newCoerceErr(tv, "Int")
+		}
 	case uint8:
 		v = int32(tv)
 	case uint16:
 		v = int32(tv)
 	case uint32:
 		v = int32(tv)
+		if math.MaxInt32 < tv {
+			err = newCoerceErr(tv, "Int")
+		}
 	case uint64:
 		v = int32(tv)
+		if math.MaxInt32 < tv {
+			err = newCoerceErr(tv, "Int")
+		}
 	case float64:
 		// Needed for nested types since the go JSON parser always emits float64 even if an integer.
 		v = int32(tv)
